@@ -120,6 +120,14 @@ Theorem C14_cdbd_accepts_exact : forall st x, wf st ->
    (width_ok st (snd (coerce_batch x)) \/ (is_df x = true /\ input_cols st = None))).
 Proof. exact cdbd_accepts_exact. Qed.
 
+(** HDDDM / CDBD with detect_batch = 1: set_reference additionally wants three rows (half of the reference
+    is fed back as a test batch); a shorter reference is refused and changes nothing *)
+Theorem C14_hdm1_reference_accepts_exact : forall st x, wf st ->
+  (is_accept (validate_reference_min3 st x) = true <->
+   3 <= fst (coerce_batch x) /\ names_ok st x /\
+   (width_ok st (snd (coerce_batch x)) \/ (is_df x = true /\ input_cols st = None))).
+Proof. exact min3_accepts_exact. Qed.
+
 (** ---- labels --------------------------------------------------------------------------------------- *)
 Theorem C14_validate_y_stream_iff : forall y, validate_y_stream y = true <-> size_of y = 1.
 Proof. exact y_stream_iff. Qed.
@@ -141,11 +149,13 @@ Theorem C14_reject_no_change : forall st x s,
   (validate_X_stream st x = Reject s -> s = st) /\
   (validate_X_batch st x = Reject s -> s = st) /\
   (validate_univariate st x = Reject s -> s = st) /\
-  (validate_cdbd st x = Reject s -> s = st).
+  (validate_cdbd st x = Reject s -> s = st) /\
+  (validate_reference_min3 st x = Reject s -> s = st).
 Proof.
   intros st x s.
   exact (conj (stream_reject_no_change st x s) (conj (batch_reject_no_change st x s)
-        (conj (uni_reject_no_change st x s) (cdbd_reject_no_change st x s)))).
+        (conj (uni_reject_no_change st x s) (conj (cdbd_reject_no_change st x s)
+        (min3_reject_no_change st x s))))).
 Qed.
 
 (** _validate_input as the detectors of the library call it (X alone or labels alone) *)
@@ -161,55 +171,54 @@ Theorem C14_validate_input_X_and_y_refuted :
   = (false, mkV None (Some 2)).
 Proof. exact validate_input_both_refuted. Qed.
 
-(** the side condition [wf] of the single-call theorems holds in every reachable state *)
-Theorem C14_wf_invariant : forall k h, wf (final (user_validator k) v_init h).
-Proof.
-  intros k h. exact (wf_final (user_validator k) (user_wf_preserved k) h v_init wf_init).
-Qed.
+(** the side condition [wf] of the single-call theorems holds in every reachable state: after any
+    history of update / set_reference calls of any of the six usages *)
+Theorem C14_wf_invariant : forall k h, wf (final_calls k v_init h).
+Proof. intros k h. exact (wf_final_calls k h v_init wf_init). Qed.
 
 (** ---- rejected_call_invisible -------------------------------------------------------------------- *)
 (** The detector as a machine (Validate.v, Section Machine): any state type D, any payload type P,
     any reset prologue [pre] that is idempotent (reset-if-drift is: after it drift_state is None),
-    any body; [k] ranges over the four ways the detectors use the validators. *)
+    any body; [k] ranges over the six usages of the validators and [sel p] says whether the call with
+    payload p is set_reference (which matters for HDDDM / CDBD with detect_batch = 1). *)
 
 (** one rejected call injected at any position of any history: the outputs after all accepted calls
     (before and after it) are those of the history without it *)
-Theorem C14_rejected_call_invisible : forall k (D P : Type) (pre : D -> D) (body : D -> Z * Z -> P -> D),
+Theorem C14_rejected_call_invisible : forall k (D P : Type) (sel : P -> bool) (pre : D -> D) (body : D -> Z * Z -> P -> D),
   (forall d, pre (pre d) = pre d) ->
+  let V := fun p => call_validator k (sel p) in
   forall h1 c h2 m,
-  snd (m_update (user_early k) pre (user_validator k) body
-                (m_final (user_early k) pre (user_validator k) body m h1) c) = false ->
-  m_trace (user_early k) pre (user_validator k) body m (h1 ++ c :: h2) =
-  m_trace (user_early k) pre (user_validator k) body m (h1 ++ h2).
+  snd (m_update (user_early k) pre V body (m_final (user_early k) pre V body m h1) c) = false ->
+  m_trace (user_early k) pre V body m (h1 ++ c :: h2) = m_trace (user_early k) pre V body m (h1 ++ h2).
 Proof.
-  intros k D P pre body Hp.
-  exact (rejected_call_invisible D P (user_early k) pre (user_validator k) body Hp (user_reject_no_change k)).
+  intros k D P sel pre body Hp V.
+  exact (rejected_call_invisible D P (user_early k) pre V body Hp (fun p => call_reject_no_change k (sel p))).
 Qed.
 
 (** any number of rejected calls: erase them all; every remaining call is accepted, the outputs are
     the same and the final states agree up to a reset that is still pending *)
-Theorem C14_rejected_calls_invisible : forall k (D P : Type) (pre : D -> D) (body : D -> Z * Z -> P -> D),
+Theorem C14_rejected_calls_invisible : forall k (D P : Type) (sel : P -> bool) (pre : D -> D) (body : D -> Z * Z -> P -> D),
   (forall d, pre (pre d) = pre d) ->
+  let V := fun p => call_validator k (sel p) in
   forall h m,
-  let E := m_erase (user_early k) pre (user_validator k) body m h in
-  m_trace (user_early k) pre (user_validator k) body m h =
-  m_trace (user_early k) pre (user_validator k) body m E /\
-  Forall (fun b => b = true) (m_verdicts (user_early k) pre (user_validator k) body m E) /\
-  sim D pre (m_final (user_early k) pre (user_validator k) body m h)
-            (m_final (user_early k) pre (user_validator k) body m E).
+  let E := m_erase (user_early k) pre V body m h in
+  m_trace (user_early k) pre V body m h = m_trace (user_early k) pre V body m E /\
+  Forall (fun b => b = true) (m_verdicts (user_early k) pre V body m E) /\
+  sim D pre (m_final (user_early k) pre V body m h) (m_final (user_early k) pre V body m E).
 Proof.
-  intros k D P pre body Hp h m.
-  exact (rejected_calls_invisible D P (user_early k) pre (user_validator k) body Hp (user_reject_no_change k) h m).
+  intros k D P sel pre body Hp V h m.
+  exact (rejected_calls_invisible D P (user_early k) pre V body Hp (fun p => call_reject_no_change k (sel p)) h m).
 Qed.
 
 (** not counted: when no reset is pending a rejected call changes nothing at all *)
-Theorem C14_rejected_call_not_counted : forall k (D P : Type) (pre : D -> D) (body : D -> Z * Z -> P -> D) m c,
+Theorem C14_rejected_call_not_counted : forall k (D P : Type) (sel : P -> bool) (pre : D -> D) (body : D -> Z * Z -> P -> D) m c,
+  let V := fun p => call_validator k (sel p) in
   pre (m_d m) = m_d m ->
-  snd (m_update (user_early k) pre (user_validator k) body m c) = false ->
-  fst (m_update (user_early k) pre (user_validator k) body m c) = m.
+  snd (m_update (user_early k) pre V body m c) = false ->
+  fst (m_update (user_early k) pre V body m c) = m.
 Proof.
-  intros k D P pre body.
-  exact (rejected_no_effect D P (user_early k) pre (user_validator k) body (user_reject_no_change k)).
+  intros k D P sel pre body m c V.
+  exact (rejected_no_effect D P (user_early k) pre V body (fun p => call_reject_no_change k (sel p)) m c).
 Qed.
 
 (** the hypothesis is satisfiable: counters and drift_state of detector.py with reset-if-drift *)
@@ -217,13 +226,13 @@ Example C14_machine_hypothesis_satisfiable :
   (forall d, toy_pre (toy_pre d) = toy_pre d) /\
   (* ADWIN-like run: two samples, the second alarms; then a 3-column row is refused (and performs
      the pending reset), then a sample is accepted: same outputs as without the refused call *)
+  let V := fun _ : bool => call_validator KStreamUni false in
   let h1 := [(InScalar, false); (In1D 1, true)] in
   let bad := (InArr2 1 3, false) in
   let h2 := [(InSeries 1, false)] in
   let m := mkM v_init (mkToy 0 0 DNone) in
-  m_verdicts (user_early KStreamUni) toy_pre (user_validator KStreamUni) toy_body m (h1 ++ bad :: h2)
-    = [true; true; false; true] /\
-  m_trace (user_early KStreamUni) toy_pre (user_validator KStreamUni) toy_body m (h1 ++ bad :: h2)
+  m_verdicts (user_early KStreamUni) toy_pre V toy_body m (h1 ++ bad :: h2) = [true; true; false; true] /\
+  m_trace (user_early KStreamUni) toy_pre V toy_body m (h1 ++ bad :: h2)
     = [mkToy 1 1 DNone; mkToy 2 2 DDrift; mkToy 3 1 DNone].
 Proof. split; [exact toy_pre_idem|]. split; reflexivity. Qed.
 
@@ -231,21 +240,26 @@ Proof. split; [exact toy_pre_idem|]. split; reflexivity. Qed.
 
 (** scalar / list / 1-D and 2-D ndarray / Series: a validator sees only the shape of the coerced
     array, for all four usages and in every state *)
-Theorem C14_container_irrelevant : forall k x y, is_df x = false -> is_df y = false ->
+Theorem C14_container_irrelevant : forall k r x y, is_df x = false -> is_df y = false ->
   user_coerce k x = user_coerce k y ->
-  user_early k x = user_early k y /\ forall st, user_validator k st x = user_validator k st y.
-Proof. exact nondf_indistinguishable. Qed.
+  user_early k x = user_early k y /\ forall st, call_validator k r st x = call_validator k r st y.
+Proof.
+  intros k r x y Hx Hy E.
+  destruct (nondf_indistinguishable k bool (fun b => b) x y Hx Hy E) as [H1 H2].
+  split; [exact H1|]. intros st. exact (H2 r st).
+Qed.
 
 (** hence whole histories: same values (payloads), indistinguishable containers, call by call:
     same verdicts, same outputs, same final state *)
-Theorem C14_container_irrelevant_history : forall k (D P : Type) (pre : D -> D) (body : D -> Z * Z -> P -> D) h1 h2 m,
+Theorem C14_container_irrelevant_history : forall k (D P : Type) (sel : P -> bool) (pre : D -> D) (body : D -> Z * Z -> P -> D) h1 h2 m,
+  let V := fun p => call_validator k (sel p) in
   Forall2 (fun c1 c2 => snd c1 = snd c2 /\
                         (fst c1 = fst c2 \/
                          (is_df (fst c1) = false /\ is_df (fst c2) = false /\
                           user_coerce k (fst c1) = user_coerce k (fst c2)))) h1 h2 ->
-  m_trace (user_early k) pre (user_validator k) body m h1 = m_trace (user_early k) pre (user_validator k) body m h2 /\
-  m_verdicts (user_early k) pre (user_validator k) body m h1 = m_verdicts (user_early k) pre (user_validator k) body m h2 /\
-  m_final (user_early k) pre (user_validator k) body m h1 = m_final (user_early k) pre (user_validator k) body m h2.
+  m_trace (user_early k) pre V body m h1 = m_trace (user_early k) pre V body m h2 /\
+  m_verdicts (user_early k) pre V body m h1 = m_verdicts (user_early k) pre V body m h2 /\
+  m_final (user_early k) pre V body m h1 = m_final (user_early k) pre V body m h2.
 Proof. exact container_irrelevant_history. Qed.
 
 (** DataFrames too, for the streaming classes: if all DataFrames of the two histories carry one list
@@ -254,10 +268,10 @@ Proof. exact container_irrelevant_history. Qed.
 Theorem C14_container_irrelevant_dataframe_stream : forall ns (D P : Type) (pre : D -> D) (body : D -> Z * Z -> P -> D) h1 h2 d,
   Forall2 (fun c1 c2 => snd c1 = snd c2 /\ named ns (fst c1) /\ named ns (fst c2) /\
                         coerce_stream (fst c1) = coerce_stream (fst c2)) h1 h2 ->
-  m_trace (fun _ => false) pre validate_X_stream body (mkM v_init d) h1 =
-  m_trace (fun _ => false) pre validate_X_stream body (mkM v_init d) h2 /\
-  m_verdicts (fun _ => false) pre validate_X_stream body (mkM v_init d) h1 =
-  m_verdicts (fun _ => false) pre validate_X_stream body (mkM v_init d) h2.
+  m_trace (fun _ => false) pre (fun _ : P => validate_X_stream) body (mkM v_init d) h1 =
+  m_trace (fun _ => false) pre (fun _ : P => validate_X_stream) body (mkM v_init d) h2 /\
+  m_verdicts (fun _ => false) pre (fun _ : P => validate_X_stream) body (mkM v_init d) h1 =
+  m_verdicts (fun _ => false) pre (fun _ : P => validate_X_stream) body (mkM v_init d) h2.
 Proof.
   intros ns D P pre body h1 h2 d F.
   apply (df_container_irrelevant validate_X_stream (fun _ => True) stream_spec_for_sim
@@ -268,10 +282,10 @@ Qed.
 Theorem C14_container_irrelevant_dataframe_univariate : forall ns (D P : Type) (pre : D -> D) (body : D -> Z * Z -> P -> D) h1 h2 d,
   Forall2 (fun c1 c2 => snd c1 = snd c2 /\ named ns (fst c1) /\ named ns (fst c2) /\
                         coerce_stream (fst c1) = coerce_stream (fst c2)) h1 h2 ->
-  m_trace (fun _ => false) pre validate_univariate body (mkM v_init d) h1 =
-  m_trace (fun _ => false) pre validate_univariate body (mkM v_init d) h2 /\
-  m_verdicts (fun _ => false) pre validate_univariate body (mkM v_init d) h1 =
-  m_verdicts (fun _ => false) pre validate_univariate body (mkM v_init d) h2.
+  m_trace (fun _ => false) pre (fun _ : P => validate_univariate) body (mkM v_init d) h1 =
+  m_trace (fun _ => false) pre (fun _ : P => validate_univariate) body (mkM v_init d) h2 /\
+  m_verdicts (fun _ => false) pre (fun _ : P => validate_univariate) body (mkM v_init d) h1 =
+  m_verdicts (fun _ => false) pre (fun _ : P => validate_univariate) body (mkM v_init d) h2.
 Proof.
   intros ns D P pre body h1 h2 d F.
   apply (df_container_irrelevant validate_univariate (fun x => snd (coerce_stream x) = 1) uni_spec_for_sim
@@ -288,10 +302,10 @@ Theorem C14_batch_dataframe_vs_array_refuted :
 Proof. exact batch_df_vs_array_refuted. Qed.
 
 (** ---- the checker of the correspondence is the verified validator --------------------------------- *)
-Theorem C14_checker_is_the_validator : forall k st x seen acc cols dim known,
-  let c := mkCall (Some x) None None [(true, x, seen)] acc cols dim known in
-  fst (fst (call_model k st c)) = negb (user_early k x) && is_accept (user_validator k st x) /\
-  snd (fst (call_model k st c)) = if user_early k x then st else state_of (user_validator k st x).
+Theorem C14_checker_is_the_validator : forall k r st x seen acc cols dim known,
+  let c := mkCall r (Some x) None None [(true, x, seen)] acc cols dim known in
+  fst (fst (call_model k st c)) = negb (user_early k x) && is_accept (call_validator k r st x) /\
+  snd (fst (call_model k st c)) = if user_early k x then st else state_of (call_validator k r st x).
 Proof. exact call_model_single. Qed.
 
 Print Assumptions C14_stream_accepts_iff.
@@ -322,3 +336,4 @@ Print Assumptions C14_container_irrelevant_dataframe_stream.
 Print Assumptions C14_container_irrelevant_dataframe_univariate.
 Print Assumptions C14_batch_dataframe_vs_array_refuted.
 Print Assumptions C14_checker_is_the_validator.
+Print Assumptions C14_hdm1_reference_accepts_exact.
